@@ -106,6 +106,8 @@ def main():
     os.makedirs(dest, exist_ok=True)
     open(os.path.join(dest, 'patch.diff'), 'w').write(patch)
     open(os.path.join(dest, 'demo_test.rs'), 'w').write(demo)
+    if os.path.exists(os.path.join(out, 'patch.rebased.diff')) and os.path.abspath(out) != os.path.abspath(dest):
+        shutil.copy(os.path.join(out, 'patch.rebased.diff'), os.path.join(dest, 'patch.rebased.diff'))
     meta['confirmation'] = res['confirmed']
     meta['ran_by_verif'] = ran
     meta['applied_to_repo'] = applied
